@@ -35,6 +35,10 @@ def cases(tier, seed):
     for i in range(150 if tier == "quick" else 3000):
         cd = gen.random_circuit(rng, n_in=rng.randint(1, 4), n_gates=rng.randint(2, 7), max_fanin=rng.choice([2, 3, 4]),
                                 p_const=0.4, p_out=0.3, names=(gen.NASTY_NAMES if rng.random() < 0.25 else None))
+        if rng.random() < 0.25:
+            cd = gen.adversarial_rename(cd, rng)  # names the transform itself would derive from other nodes
+        if rng.random() < 0.3:
+            cd = gen.shuffle_nodes(cd, rng)  # node insertion order decides iteration order inside the library
         yield {"c": cd}
 
 
@@ -44,7 +48,12 @@ def run_case(case):
         return {"nontrivial": False, "failures": []}
     fails = []
     snap = circ.snapshot(c)
-    t, mapping = cg.tx.ternary(c)
+    res, bad = gen.guarded("ternary", lambda: cg.tx.ternary(c), list(c.graph.nodes))
+    if bad == "skip":
+        return {"nontrivial": False, "failures": []}
+    if bad:
+        return {"nontrivial": True, "failures": [bad]}
+    t, mapping = res
     nodes = sorted(c.graph.nodes)
     if set(mapping) != set(nodes):
         fails.append({"kind": "ternary-mapping-domain", "msg": f"{sorted(mapping)}"})
@@ -56,6 +65,10 @@ def run_case(case):
                 set(t.graph.predecessors(n)) != set(c.graph.predecessors(n)):
             fails.append({"kind": "ternary-original-node-changed", "msg": f"node {n}"})
             break
+    if fails:
+        return {"nontrivial": True, "failures": fails}
+    if sem.is_dag(c) and not sem.is_dag(t):
+        return {"nontrivial": True, "failures": [{"kind": "ternary-result-cyclic", "msg": "the ternary circuit of an acyclic circuit has a cycle"}]}
     ins = sorted(n for n in nodes if c.graph.nodes[n]["type"] == "input")
     want_free = set(ins) | {mapping[i] for i in ins}
     try:
